@@ -14,7 +14,13 @@ Definition mks (id : Z) (urls : list Z) (user : bool) (cr : Z) (credtype : Z) : 
   {| s_id := id; s_urls := map url_of_Z urls; s_user := user; s_cred := cred_of_Z cr;
      s_credtype := credtype |}.
 
-Definition mkc (sv : list server) (pol bun mux : Z) (ident : string) (cs : list Z)
+(* key type 0 nil/other, 1 RSA, 2 ECDSA; key identity; x509 identity *)
+Definition mkcert (kt key x509 : Z) : cert :=
+  {| c_ktype := match kt with 1 => KRsa | 2 => KEcdsa | _ => KNone end; c_key := key; c_x509 := x509 |}.
+Definition Vcert (c : cert) : V :=
+  VL [VZ (match c_ktype c with KNone => 0 | KRsa => 1 | KEcdsa => 2 end); VZ (c_key c); VZ (c_x509 c)].
+
+Definition mkc (sv : list server) (pol bun mux : Z) (ident : string) (cs : list cert)
            (pl sem : Z) (dc : bool) : config :=
   {| servers := sv; policy := pol; bundle := bun; rtcpmux := mux; identity := ident; certs := cs;
      pool := Z.to_N pl; semantics := sem; always_dc := dc |}.
@@ -23,7 +29,7 @@ Inductive istep := CSet (c : config) | CLocal | CClose.
 
 Definition Vconfig (c : config) : V :=
   VL [VL (map (fun s => VZ (s_id s)) (servers c)); VZ (policy c); VZ (bundle c); VZ (rtcpmux c);
-      VS (identity c); VL (map VZ (certs c)); VN (pool c); VZ (semantics c); VB (always_dc c)].
+      VS (identity c); VL (map Vcert (certs c)); VN (pool c); VZ (semantics c); VB (always_dc c)].
 
 (* error classes as numbers: 0 ok, 1 InvalidState, 2 InvalidModification,
    3 InvalidAccess, 4 NotSupported, 9 anything else *)
